@@ -40,6 +40,12 @@ SMALL = {"bool": [True, False], "int8": [3, -1, 0, 2], "int64": [3, -1, 0, 2 ** 
          "float32": [1.5, -2.25, 0.0, 4.0], "float64": [1.5, -2.25, 0.0, 2.0 ** 30]}
 
 
+def SMALLV(dt, i):
+    import numpy as np
+    v = ALPHA[dt][i % len(ALPHA[dt])]
+    return float(v) if dt.startswith("float") else int(v)
+
+
 def arrays(tier, rng, table, maxn_exh=4):
     """(dtype, list) pairs: every array of length 1..maxn over a 2-3 letter sub-alphabet per dtype, plus long-run random arrays"""
     out = []
@@ -117,7 +123,22 @@ def run_c14(R, tier, rng):
             o = spec_rl(A); o["asarray"] = kl(A); o["asarray_dtype"] = dt; o["values_in_source"] = True; return o
         C.cmp("roundtrip " + tag, "roundtrip/" + dt, nt, enc, spec, py=f"RunLengthArray.from_array(np.array({a!r}, dtype='{dt}'))  -> to_array / np.asarray / len,size,shape,dtype / starts,ends,values canonical")
         n = len(a)
+        # np.asarray with an explicit dtype, then without, on ONE object (a cached conversion must not leak the first dtype)
+        def conv_twice():
+            r = RunLengthArray.from_array(A)
+            first = np.asarray(r, dtype=float if dt != "float64" else np.float32); second = np.asarray(r); third = r.to_array()
+            return [str(first.dtype), kl(second), str(second.dtype), kl(third), str(third.dtype)]
+        C.cmp("asarray(dtype) then asarray " + tag, "asarray-twice", nt, conv_twice, lambda: ["float64" if dt != "float64" else "float32", kl(A), dt, kl(A), dt],
+              py=f"r = RunLengthArray.from_array(np.array({a!r}, dtype='{dt}')); np.asarray(r, dtype=float); np.asarray(r)")
         if n <= 5 or rng.random() < .3:
+            # slices of arrays whose neighbouring runs may be equal (scalar ufunc results, concatenations keep the operands' boundaries):
+            # stepped slices (also step -1) promise no equal neighbours
+            srcs = [("concat", lambda: np.concatenate([RunLengthArray.from_array(A), RunLengthArray.from_array(A[::-1].copy())]), np.concatenate([A, A[::-1]]))]
+            if dt not in ("bool",): srcs.append(("floordiv", lambda: RunLengthArray.from_array(A) // 5 if not dt.startswith("float") else RunLengthArray.from_array(A) * 0, A // 5 if not dt.startswith("float") else A * 0))
+            for sname, mksrc, dense in srcs:
+                for sl in (slice(None, None, -1), slice(None, None, 2), slice(None, None, -2), slice(len(dense) - 1, 0, -1), slice(1, None, 3)):
+                    C.cmp(f"slice-canonical/{sname} {tag} {sl}", "canonical/slice-of-noncanonical", nt, lambda: rl_obs(mksrc()[sl], 2), lambda: spec_rl(dense[sl]),
+                          py=f"<{sname} of from_array({a!r}, {dt})>[{sl.start}:{sl.stop}:{sl.step}]  (content + no equal neighbours)")
             r0 = guarded(lambda: RunLengthArray.from_array(A))
             if r0 is None: continue
             # canonical form of every producer the property lists: slicing (Canon1), stepped slicing (Canon2), binary ufunc (Canon2), concatenation (Canon1)
@@ -160,6 +181,16 @@ def run_c15(R, tier, rng):
                     r = mk()[RunLengthArray.from_array(np.array(m))]
                     return dense_obs(np.asarray(r.to_array() if hasattr(r, "to_array") else r))
                 C.cmp(f"rlmask {tag} {m}", "rl-mask", nt, rlmask, lambda: dense_obs(A[np.array(m)]), py=f"rla[RunLengthArray.from_array(np.array({m}))]")
+        if dt != "bool":
+            for thr in (SMALLV(dt, 0), SMALLV(dt, 1), SMALLV(dt, 2)):
+                for cmpname in ("less", "greater_equal", "not_equal"):
+                    cf = getattr(np, cmpname)
+                    dm = cf(A, thr)
+                    if not dm.any(): continue
+                    def cmpmask():
+                        r = mk(); m = cf(r, thr); out = r[m]
+                        return dense_obs(np.asarray(out.to_array() if hasattr(out, "to_array") else out))
+                    C.cmp(f"rlmask-from-comparison {tag} {cmpname} {thr!r}", "rl-mask/comparison", nt, cmpmask, lambda: dense_obs(A[dm]), py=f"r = from_array({a!r}, {dt}); r[np.{cmpname}(r, {thr!r})]")
         B = [None] + sorted({0, 1, 2, n - 1, n, n + 1, n + 3, -1, -2, -n, -n - 1, -n - 3})
         steps = [None, 1, 2, 3, 4, -1, -2, -3, -4]
         for st, sp, se in itertools.product(B, B, steps):
@@ -244,6 +275,13 @@ def run_c16(R, tier, rng):
                 bins = [-3, 0, 1, 2, 4, 2 ** 41]
                 C.cmp(f"histogram {vn} {tag}", "histogram/" + vn, nt, lambda: kl(np.histogram(mkv(), bins=bins)[0]), lambda: kl(np.histogram(dense.astype(float) if dt == "bool" else dense, bins=bins)[0]),
                       py=f"np.histogram(<{vn} of from_array({a!r}, {dt})>, bins={bins})")
+        if ci % 3 == 1:
+            dtb = DT[(DT.index(dt) + 1 + ci) % len(DT)]
+            pb = [SMALL[dtb][(ci + t) % len(SMALL[dtb])] for t in range(1 + ci % 4)]
+            if dtb in ("int64", "uint64"): pb = pb[:-1] + [300]
+            if dtb.startswith("float"): pb = pb[:-1] + [0.5]
+            C.cmp(f"concatenate-mixed {dt} {a!r} + {dtb} {pb!r}", "concatenate/mixed-dtypes", True, lambda: rl_obs(np.concatenate([enc(a, dt), enc(pb, dtb)]), 1, with_canon=False),
+                  lambda: spec_rl(np.concatenate([np.array(a, dtype=dt), np.array(pb, dtype=dtb)]), canon=False), py=f"np.concatenate([from_array({a!r}, {dt}), from_array({pb!r}, {dtb})])")
         if ci % 3 == 0:
             parts = [a] + [rng.choice(arrs)[1] if False else [rng.choice(SMALL[dt]) for _ in range(rng.randint(1, 4))] for _ in range(rng.randint(0, 2))]
             C.cmp(f"concatenate {dt} {parts!r}", "concatenate", True, lambda: rl_obs(np.concatenate([enc(p, dt) for p in parts]), 1, with_canon=False),
